@@ -32,6 +32,9 @@ pub struct Profile {
     /// Probability of an aggregation over an aggregation grouped by the inner aggregate
     /// (`SELECT t.c, count(*) FROM (SELECT count(*) AS c FROM base GROUP BY key) AS t GROUP BY t.c`).
     pub p_nested_group: f64,
+    /// Probability of a query combining two DP aggregations (join of two CTE aggregations on a
+    /// key, or UNION ALL of two aggregations).
+    pub p_multi_dp: f64,
 }
 
 impl Profile {
@@ -51,6 +54,7 @@ impl Profile {
             p_nested: 0.08,
             p_shared_cte: 0.0,
             p_nested_group: 0.0,
+            p_multi_dp: 0.0,
         };
         match prop {
             "C03" => Profile { p_shared_cte: 0.05, p_nested_group: 0.03, ..base },
@@ -360,14 +364,22 @@ pub fn generate(seed: u64, run: u64, prop: &str) -> Generated {
     // multiplicity the bound will assume for tables below users (estimate on declared size)
     // orders per user
     let base_orders = *rd.pick(&[0usize, 1, 2, 3]);
-    let heavy_user = if heavy && n_users > 0 { Some(rd.usize(n_users)) } else { None };
-    let spread_user = if spread && n_users > 0 { Some(rd.usize(n_users)) } else { None };
+    // 1:1 optional extension table: at most one order per user, orders.user_id declared unique
+    let one_to_one = depth >= 2 && !direct_orders && rf.chance(0.12);
+    let heavy_user = if heavy && !one_to_one && n_users > 0 { Some(rd.usize(n_users)) } else { None };
+    let spread_user = if spread && !one_to_one && n_users > 0 { Some(rd.usize(n_users)) } else { None };
+    if one_to_one {
+        if let Some(ci) = orders.col_index("user_id") {
+            orders.cols[ci].unique = true;
+        }
+    }
     let mut oid = 0i64;
     let mut order_ids: Vec<i64> = vec![];
     if depth >= 2 {
         for (ui, uid) in user_ids.iter().enumerate() {
             let mut k = if base_orders == 0 { rd.below(2) as usize } else { 1 + rd.below(base_orders as u64 * 2) as usize };
             if benign { k = k.min(params.max_mult as usize).max(if rd.chance(0.1) { 0 } else { 1 }).min(k); }
+            if one_to_one { k = if rd.chance(0.6) { 1 } else { 0 }; }
             if Some(ui) == heavy_user {
                 k = ((params.max_mult as usize).max(1) * (10 + rd.below(20) as usize)).min(160);
                 faults.push("heavy_unit".into());
@@ -666,6 +678,40 @@ pub fn generate(seed: u64, run: u64, prop: &str) -> Generated {
         }
     }
 
+    // two DP aggregations combined: join of two CTE aggregations on a key, or UNION ALL
+    if rg.chance(profile.p_multi_dp) && !numeric.is_empty() {
+        let a = alias_of(&base_t.name);
+        let own: Vec<&(String, ColSpec)> = numeric.iter().cloned().filter(|(q, _)| q.starts_with(&format!("{}.", a))).collect();
+        let own_keys: Vec<&(String, ColSpec)> = keyable.iter().cloned().filter(|(q, c)| q.starts_with(&format!("{}.", a)) && public_set_of(&c.ty).is_some() && !c.optional && c.ty != ColType::Bool).collect();
+        if !own.is_empty() {
+            let (v1, _) = own[rg.usize(own.len())];
+            let (v2, _) = own[rg.usize(own.len())];
+            let f1 = *rg.pick(&["sum", "avg", "count"]);
+            let f2 = *rg.pick(&["sum", "count", "avg"]);
+            let _ = &own_keys;
+            let sql = if rg.chance(0.5) {
+                tags.push("keys:none".into());
+                format!(
+                    "WITH a AS (SELECT {f1}({v1}) AS s FROM {t} AS {al}), b AS (SELECT {f2}({v2}) AS c FROM {t} AS {al}) SELECT a.s AS s, b.c AS c FROM a CROSS JOIN b",
+                    f1 = f1, v1 = v1, f2 = f2, v2 = v2, t = base_t.name, al = a
+                )
+            } else {
+                tags.push("keys:none".into());
+                format!(
+                    "SELECT p.v AS v FROM (SELECT {f1}({v1}) AS v FROM {t} AS {al}) AS p UNION ALL SELECT q.v AS v FROM (SELECT {f2}({v2}) AS v FROM {t} AS {al}) AS q",
+                    f1 = f1, v1 = v1, f2 = f2, v2 = v2, t = base_t.name, al = a
+                )
+            };
+            tags.push("multi_dp".into());
+            let query = QuerySpec { from: vec![], where_: vec![], keys: vec![], aggs: vec![], having: None, outer: None, plain: None, cte: None, raw_sql: None, holders_override: None };
+            let base = Some((a, base_t.name.clone()));
+            let mut g = finish(seed, run, tables, synthetic, pu, params, query, base, tags, faults, &protected);
+            g.scenario.sql = sql;
+            g.scenario.query = None;
+            return g;
+        }
+    }
+
     // sub-query used twice: released once, re-aggregated once (CTE + UNION ALL)
     if rg.chance(profile.p_shared_cte) && !numeric.is_empty() && !keyable.is_empty() {
         let own: Vec<&(String, ColSpec)> = numeric.iter().cloned().filter(|(q, _)| q.starts_with(&format!("{}.", alias_of(&base_t.name)))).collect();
@@ -710,8 +756,19 @@ pub fn generate(seed: u64, run: u64, prop: &str) -> Generated {
             plain.push((q.clone(), format!("p{}", j)));
         }
         tags.push("plain".into());
+        let set_op = if from.len() == 1 && rg.chance(0.3) { Some(*rg.pick(&["UNION", "UNION ALL", "EXCEPT", "INTERSECT"])) } else { None };
+        let base = Some((alias_of(&base_t.name), base_t.name.clone()));
         let query = QuerySpec { from, where_, keys: vec![], aggs: vec![], having: None, outer: None, plain: Some(plain), cte: None, raw_sql: None, holders_override: None };
-        return finish(seed, run, tables, synthetic, pu, params, query, None, tags, faults, &protected);
+        if let Some(op) = set_op {
+            // a set operation of the projection with itself (both branches read protected rows)
+            tags.push("set_operation".into());
+            let one = query.sql();
+            let mut g = finish(seed, run, tables, synthetic, pu, params, query, base, tags, faults, &protected);
+            g.scenario.sql = format!("{} {} {}", one, op, one);
+            g.scenario.query = None;
+            return g;
+        }
+        return finish(seed, run, tables, synthetic, pu, params, query, base, tags, faults, &protected);
     }
 
     // keys
